@@ -395,7 +395,7 @@ def judge_fit(S, model, mid, cls, ds, Xd, yc, rec, seams, warned_nonconv, feat0,
         margin = objective_margin(pr, w, b, dist, tol, crit, exact, Pz) \
             + (drift + f32_allow + (1e-4 * (1 + abs(Pz)) if f32 else 0.0)) * (1 + dist)
         if P > Pz + margin:
-            props = ["C11"] + (["C10"] if container != "F" else []) + \
+            props = ["C11", "C02"] + (["C10"] if container != "F" else []) + \
                 (["C05"] if feat0.get("refit") and feat0.get("warm_start") else [])
             S.add(props, "reference_optimum", sig0 + ("above_reference_optimum",),
                   dict(P=float(P), P_ref=float(Pz), margin=float(margin), tol=tol, dist=dist),
